@@ -39,7 +39,7 @@ func RunKVBFS(rep *Report, pool *Pool, cfg Config, depth, tier int, deadline tim
 	for d := 0; d < depth && len(frontier) > 0; d++ {
 		jobs := make([]any, len(frontier))
 		for i, s := range frontier {
-			jobs[i] = KVJob{Cfg: cfg, Path: s.path, Tier: tier}
+			jobs[i] = KVJob{Cfg: cfg, Path: s.path, Tier: tier, ExtraBackfills: rep.Prop == "C09" || rep.Prop == "ALL"}
 		}
 		var next []st
 		cut := false
